@@ -433,10 +433,10 @@ void *freshMain(void *vp) {
     return nullptr;
 }
 }  // namespace
-void schedRunOnFreshThread(const std::function<void()> &f) {
+void schedRunOnFreshThread(const std::function<void()> &f, size_t stackBytes) {
     pthread_attr_t attr;
     pthread_attr_init(&attr);
-    pthread_attr_setstacksize(&attr, 8 << 20);
+    pthread_attr_setstacksize(&attr, stackBytes ? stackBytes : (size_t)(8 << 20));
     pthread_t th;
     std::function<void()> copy = f;
     sigset_t a, old;
